@@ -175,6 +175,18 @@ def main():
                 mod.run(ctx)
             except lib.CoqCasesError as e:
                 ctx.break_(f"correspondence:{e.suite}", str(e))
+            except Exception as e:  # noqa: BLE001
+                # An exception that escapes from the IMPLEMENTATION while a suite drives it (the harness calls it with inputs it
+                # accepts on the unchanged tree) is a verdict about the code, not a failure of the check: report it as a violation
+                # with the call stack as the replay.  Exceptions raised by the harness itself stay CHECK-ERRORs.
+                frames = traceback.extract_tb(e.__traceback__)
+                repo = str(lib.REPO.resolve())
+                if not any(str(Path(f.filename).resolve()).startswith(repo + os.sep) for f in frames):
+                    raise
+                ctx.fail("implementation-raises", f"{type(e).__name__}: {str(e)[:200]} raised inside the implementation while a suite was "
+                         "driving it with inputs the unchanged code accepts", suite="harness",
+                         input=dict(traceback=[f"{f.filename}:{f.lineno} {f.name}: {f.line}" for f in frames][-8:]),
+                         predicate="the implementation answers every call of the suites")
         new, known = classify(ctx)
         seen = {}
         for f, k in known:
